@@ -627,15 +627,6 @@ theorem servers_witness_ws :
 
 /-! ## documents -/
 
-theorem mapRes_ok {α β : Type} (f : α → Res β) (g : α → β) (l : List α) (h : ∀ a ∈ l, f a = .ok (g a)) :
-    mapRes f l = .ok (l.map g) := by
-  induction l with
-  | nil => rfl
-  | cons a rest ih =>
-    have h1 := h a (by simp)
-    have h2 := ih (fun b hb => h b (by simp [hb]))
-    simp [mapRes, h1, h2]
-
 theorem toV3P_simple {V : Type} (env : Env3 V) (c : List String) (q : PRef2 V) (h : paramSimple q = true) :
     toV3P env c q = .param (toV3PS q) := by
   cases q with
@@ -727,42 +718,6 @@ theorem mapSecs_preserves (l : List (String × Sec2)) (h : l.all (fun ks => secI
     obtain ⟨t, ht, hs⟩ := toV3Sec_preserves ks.2 h.1
     obtain ⟨k, s⟩ := ks
     exact ⟨(k, t) :: l', by simp [mapSecs, ht, hl], by simp [hm, hs]⟩
-
-theorem ainsert_fresh {α : Type} (k : String) (v : α) (l : List (String × α)) (h : alookup k l = none) :
-    ainsert k v l = l ++ [(k, v)] := by
-  induction l with
-  | nil => rfl
-  | cons kv rest ih =>
-    obtain ⟨k', v'⟩ := kv
-    simp only [alookup] at h
-    split at h
-    · simp at h
-    · rename_i hne
-      simp [ainsert, hne, ih h]
-
-theorem alookup_append_none {α : Type} (k : String) (l1 l2 : List (String × α))
-    (h1 : alookup k l1 = none) (h2 : alookup k l2 = none) : alookup k (l1 ++ l2) = none := by
-  induction l1 with
-  | nil => simpa using h2
-  | cons kv rest ih =>
-    obtain ⟨k', v'⟩ := kv
-    simp only [alookup] at h1
-    split at h1
-    · simp at h1
-    · rename_i hne
-      simp [alookup, hne, ih h1]
-
-theorem alookup_map_none {α β : Type} (k : String) (g : α → β) (l : List (String × α)) (h : alookup k l = none) :
-    alookup k (l.map (fun kv => (kv.1, g kv.2))) = none := by
-  induction l with
-  | nil => rfl
-  | cons kv rest ih =>
-    obtain ⟨k', v'⟩ := kv
-    simp only [alookup] at h
-    split at h
-    · simp at h
-    · rename_i hne
-      simp [alookup, hne, ih h]
 
 /-- distinct definition names: the component schemas are the converted definitions, in order -/
 theorem mergeSchemas_nodup {V : Type} (defs : List (String × Sch V)) (acc : List (String × CSchema V))
@@ -941,18 +896,6 @@ example :
   decide
 
 /-! ## validation of the converted document -/
-
-theorem ainsert_all {α : Type} (P : String → Bool) (k : String) (v : α) (l : List (String × α))
-    (hk : P k = true) (hl : l.all (fun kv => P kv.1) = true) : (ainsert k v l).all (fun kv => P kv.1) = true := by
-  induction l with
-  | nil => simp [ainsert, hk]
-  | cons kv rest ih =>
-    obtain ⟨k', v'⟩ := kv
-    simp only [List.all_cons, Bool.and_eq_true] at hl
-    unfold ainsert
-    split
-    · simp [hk, hl.2]
-    · simp [hl.1, ih hl.2]
 
 theorem sharedP3_names {V : Type} (c : List String) (l : List (String × PRef2 V))
     (h : l.all (fun kv => identOK kv.1) = true) :
